@@ -16,6 +16,8 @@ func init() {
 		c06InitialPacket(c)
 		c06Upgrades(c)
 		c06OneSession(c)
+		c03ConstructionWiring(c, "C06.5b")
+		casPolarity(c, "C06.2b")
 		c06Revision(c)
 		c06OptionHandover(c)
 		timerNilSafe(c, "C07.4") // heartbeat mode keyed on the session revision (arming table)
